@@ -129,6 +129,8 @@ def dec(j):
             return tuple(dec(x) for x in j["t"])
         if "d" in j:
             return {k: dec(v) for k, v in j["d"].items()}
+        if "none" in j:
+            return None
         raise ValueError(j)
     return j
 
@@ -136,6 +138,11 @@ def dec(j):
 def enc(v):
     if type(v) is int or type(v) is str:
         return v
+    if v is None:
+        return {"none": True}
+    if type(v).__name__ == "histogram":
+        return {"hist": [enc(list(map(list, v.edges)) if isinstance(v.edges[0], (list, tuple)) else list(v.edges)),
+                         enc(_tolist(v.bins))]}
     if type(v) is list:
         return [enc(x) for x in v]
     if type(v) is tuple:
@@ -144,7 +151,15 @@ def enc(v):
         return {"d": {str(k): enc(x) for k, x in v.items()}}
     if type(v) is float:
         return {"f": repr(v)}
+    if isinstance(v, tuple):                     # named tuples of the oracle-only accumulators
+        return {"t": [enc(x) for x in v], "cls": type(v).__name__}
+    if type(v).__name__ == "Decimal":
+        return {"dec": str(v)}
     return {"obj": type(v).__name__}
+
+
+def _tolist(b):
+    return [_tolist(x) for x in b] if isinstance(b, (list, tuple)) else b
 
 
 def model_value(j):
@@ -410,11 +425,31 @@ def build(spec):
             return lena.flow.StoreFilled(spec["group"])
         if a == "count":
             return lena.core.FillCompute(lena.flow.Count(spec["name"]))
+        # further framework accumulators: compared between the real drivers only (oracle), not modelled
+        if a == "dsum":
+            return lena.math.DSum()
+        if a == "vmc":
+            return lena.math.VarianceMeanCount()
+        if a == "hist":
+            import lena.structures
+            return lena.structures.Histogram([-3, 0, 3, 6, 14])
+        if a == "vec":
+            return lena.math.Vectorize(lena.math.Sum(), construct=tuple)
+        if a == "nested":
+            return lena.core.FillComputeSeq(*[build(x) for x in spec["chain"]])
         raise ValueError(a)
     if k == "syn":
         return syn_class(spec["attrs"], spec["call"], spec.get("nodata", False))()
     if k == "dup":
         return _Dup()
+    if k == "filtert":
+        # a selector that returns a truthy / falsy value that is not a bool
+        if spec["q"] == "odd":
+            return lena.flow.Filter(lambda v: _need_int(v[0] if _has_context(v) else v) % 2)
+        return lena.flow.Filter(lambda v: v[0] if _has_context(v) else v)
+    if k == "const":
+        c = spec["v"]
+        return lambda v: dec(c)
     if k == "junk":
         return JUNK[spec.get("v", "int")]
     if k == "setctx":
@@ -462,7 +497,7 @@ def run_convertible(el):
 # ----------------------------------------------------------------------------------------
 # independent reference: the flow processed eagerly, stage by stage, in plain Python (no lena code)
 
-PRE_KINDS = ("call", "var", "filter", "slice", "runif", "dup")
+PRE_KINDS = ("call", "var", "filter", "slice", "runif", "dup", "filtert", "const")
 
 
 class _RefSkip(Exception):
@@ -494,7 +529,7 @@ def ref_gen(spec, it):
         for v in itertools.islice(it, a, b, s):
             yield v
     elif k == "runif":
-        if spec.get("bad"):
+        if spec.get("bad") or not stateless_list(spec["inner"]):
             raise _RefSkip()
         for v in it:
             if _pred_value(spec["p"], v):
@@ -506,6 +541,14 @@ def ref_gen(spec, it):
         for v in it:
             yield v
             yield [v]
+    elif k == "filtert":
+        for v in it:
+            d = v[0] if _has_context(v) else v
+            if (_need_int(d) % 2) if spec["q"] == "odd" else d:
+                yield v
+    elif k == "const":
+        for v in it:
+            yield dec(spec["v"])
     elif k == "reverse":
         for v in reversed(list(it)):
             yield v
@@ -527,6 +570,37 @@ def ref_chain(specs, xs):
     for s in specs:
         xs = list(ref_gen(s, iter(xs)))
     return xs
+
+
+def stateless(spec):
+    """the element keeps no state between two calls of its run (twin of Lean `Spec.stateless`)"""
+    k = spec["k"]
+    if k in ("count", "acc", "syn"):
+        return False
+    if k == "runif":
+        return stateless_list(spec["inner"])
+    return True
+
+
+def stateless_list(specs):
+    return all(stateless(x) for x in specs)
+
+
+def model_in_scope(spec):
+    """twin of Lean `Spec.inScopeB`: the property's kinds as far as the model covers them (RunIf: stateless inner)"""
+    return pre_in_scope([spec]) and (spec["k"] != "runif" or stateless_list(spec["inner"]))
+
+
+def oracle_only(specs):
+    """the case contains something the value model cannot express (a RunIf whose inner sequence keeps state between
+    its one-value runs; an accumulator outside Sum/Mean/StoreFilled/FillCompute(Count)): the real drivers are compared
+    with each other (oracle), the model is not asked"""
+    for x in specs:
+        if x["k"] == "runif" and (not stateless_list(x["inner"]) or oracle_only(x["inner"])):
+            return True
+        if x["k"] == "acc" and x["a"] in ("dsum", "vmc", "hist", "vec", "nested"):
+            return True
+    return False
 
 
 def pre_in_scope(pre):
@@ -563,31 +637,43 @@ def _construct(thunk):
         return None, {"e": exc_name(e), "phase": "init"}
 
 
-def drive_seq(args, flow):
+def make_flow(flow, form="iter"):
+    """the flow as the caller hands it over: a list iterator (default), the list itself, a tuple, a generator"""
+    vals = dec(flow)
+    if form == "list":
+        return vals
+    if form == "tuple":
+        return tuple(vals)
+    if form == "gen":
+        return (v for v in vals)
+    return iter(vals)
+
+
+def drive_seq(args, flow, form="iter"):
     import lena.core
     seq, err = _construct(lambda: lena.core.Sequence(*[build(s) for s in args]))
     if err:
         return err
-    return observe(lambda: seq.run(iter(dec(flow))))
+    return observe(lambda: seq.run(make_flow(flow, form)))
 
 
-def _fill_loop(seq, flow):
+def _fill_loop(seq, flow, form="iter"):
     import lena.core
-    for v in dec(flow):
+    for v in make_flow(flow, form):
         try:
             seq.fill(v)
         except lena.core.LenaStopFill:
             break
 
 
-def drive_fill(args, flow):
+def drive_fill(args, flow, form="iter"):
     import lena.core
     seq, err = _construct(lambda: lena.core.FillComputeSeq(*[build(s) for s in args]))
     if err:
         return err
 
     def go():
-        _fill_loop(seq, flow)
+        _fill_loop(seq, flow, form)
         return seq.compute()
     return observe(go)
 
@@ -615,7 +701,7 @@ def drive_fillseq(args, flow):
     return observe(go)
 
 
-def drive_split(branches, bufsize, flow, islist=True, form="tuple"):
+def drive_split(branches, bufsize, flow, islist=True, form="tuple", flowform="iter", copy_buf=True):
     """form: how a branch is handed to Split — the tuple of its elements; "prebuilt": a FillComputeSeq made by the caller;
     "bare": a branch of one element is given as the element itself (all are documented as equivalent)"""
     import lena.core
@@ -631,11 +717,14 @@ def drive_split(branches, bufsize, flow, islist=True, form="tuple"):
     def make():
         # all elements first (as the argument list of one Split(...) expression would), then the branches
         all_objs = [tuple(build(s) for s in b) for b in branches]
-        return lena.core.Split(conv(branch(o) for o in all_objs), bufsize=bufsize)
+        kw = {} if bufsize == "default" else {"bufsize": bufsize}
+        if not copy_buf:
+            kw["copy_buf"] = False
+        return lena.core.Split(conv(branch(o) for o in all_objs), **kw)
     sp, err = _construct(make)
     if err:
         return err
-    return observe(lambda: sp.run(iter(dec(flow))))
+    return observe(lambda: sp.run(make_flow(flow, flowform)))
 
 
 def failing_iter(flow, term):
@@ -921,12 +1010,22 @@ def run_impl(case):
     op = case["op"]
     if op == "chain":
         args, flow = case["args"], case["flow"]
-        res = {"seq": drive_seq(args, flow), "fill": drive_fill(args, flow), "fillseq": drive_fillseq(args, flow),
-               "split": [drive_split([args], b, flow) for b in case["bufsizes"]],
+        ff = case.get("flowform", "iter")
+        res = {"seq": drive_seq(args, flow, ff), "fill": drive_fill(args, flow, ff), "fillseq": drive_fillseq(args, flow),
+               "split": [drive_split([args], "default" if (b == 1000 and case.get("defaultbuf")) else b, flow, flowform=ff)
+                         for b in case["bufsizes"]],
                "facts": chain_facts(args)}
         sp = split_point(args)
         res["safe"] = ref_safe(sp[0], flow) if sp else None
         return res
+    if op == "caps":
+        el, err = _construct(lambda: build(case["spec"]))
+        if err:
+            return err
+        fl = {n: attr_state(el, n) for n in STD}
+        fl["callable"] = bool(callable(el))
+        fl["nodata"] = hasattr(el, "_has_no_data")
+        return {"flags": fl}
     if op == "stage":
         return drive_stage(case["el"], case["flow"], case.get("term"))
     if op == "fillseq_init":
@@ -942,7 +1041,8 @@ def run_impl(case):
                 "normal": [fills_normally(b, flow) for b in bs], "facts": [chain_facts(b) for b in bs]}
     if op == "split":
         bs, flow = case["branches"], case["flow"]
-        return {"split": drive_split(bs, case["bufsize"], flow, case.get("islist", True), case.get("form", "tuple")),
+        return {"split": drive_split(bs, case["bufsize"], flow, case.get("islist", True), case.get("form", "tuple"),
+                                     case.get("flowform", "iter"), case.get("copy_buf", True)),
                 "seq": [drive_seq(b, flow) for b in bs],
                 "fill": [drive_fill(b, flow) for b in bs],
                 "safe": [(lambda sp: ref_safe(sp[0], flow) if sp else None)(split_point(b)) for b in bs],
@@ -955,8 +1055,23 @@ def run_impl(case):
 # ----------------------------------------------------------------------------------------
 # model side
 
+def _case_specs(case):
+    op = case["op"]
+    if op in ("chain", "fillseq_init"):
+        return case["args"]
+    if op in ("split", "splitfc"):
+        return [x for b in case["branches"] for x in b]
+    if op == "stage":
+        return [case["el"]]
+    return []
+
+
 def model_requests(case):
     op = case["op"]
+    if oracle_only(_case_specs(case)):
+        return []
+    if op == "caps":
+        return [{"op": "caps", "spec": case["spec"]}]
     if op == "chain":
         return [{"op": "chain", "args": case["args"], "flow": case["flow"], "bufsizes": case["bufsizes"]}]
     if op == "split":
@@ -1017,9 +1132,18 @@ def compare(case, res, replies):
                 return f"count_dual: fill side {model_value(d['fill'])} vs the real FillComputeSeq {res['fill']}"
         sp = split_point(case["args"])
         if m.get("inscope") is not None and sp is not None:
-            ref = [pre_in_scope([x]) for x in sp[0]]
+            ref = [model_in_scope(x) for x in sp[0]]
             if m["inscope"] != ref:
-                return f"Spec.inScopeB {m['inscope']} vs Python pre_in_scope {ref}"
+                return f"Spec.inScopeB {m['inscope']} vs Python model_in_scope {ref}"
+        return None
+    if op == "caps":
+        if "e" in m or "e" in res:
+            return None if m == res else f"impl {res} vs model {m}"
+        for k in STD + ("callable", "nodata"):
+            if m.get(k) != res["flags"].get(k):
+                return f"capability table of Spec.toObj: {k} = {m.get(k)} but the real object has {res['flags'].get(k)}"
+        if m["stateless"] != stateless(case["spec"]):
+            return f"Spec.stateless {m['stateless']} vs Python twin {stateless(case['spec'])}"
         return None
     if op == "stage":
         if "e" in m or "e" in res:
@@ -1164,6 +1288,8 @@ def oracle(case, res):
             return None
         return (_chain_agreement(args, flow, res["seq"], fill_side, res["safe"], what)
                 or _dual_count(args, res, what))
+    if op == "caps":
+        return None
     if op == "stage":
         spec = case["el"]
         if "e" in res or not pre_in_scope([spec]) or spec.get("bad"):
@@ -1281,6 +1407,12 @@ NONNEG_SLICES = [[0], [1], [2], [3], [5], [None], [1, 4], [0, 5, 2], [0, 5, 3], 
 NEG_SLICES = [[-1], [-2], [1, -1], [-3, None], [-2, None, 2], [-3, -1], [-3, 2], [None, -1, 3]]
 BAD_SLICES = [[0, 5, 0], [1, -1, 0], [None, None, 0]]
 PREDS = ["even", "pos", "lt5", "all", "none"]
+CONSTS = [{"none": True}, 0, [], {"t": []}, 7, "s"]
+ORACLE_ACCS = [{"k": "acc", "a": "dsum"}, {"k": "acc", "a": "vmc"}, {"k": "acc", "a": "hist"},
+               {"k": "acc", "a": "nested", "chain": [{"k": "call", "f": "inc"}, {"k": "acc", "a": "sum"}]},
+               {"k": "acc", "a": "nested", "chain": [{"k": "filter", "p": "even"}, {"k": "acc", "a": "store", "group": False},
+                                                     {"k": "call", "f": "wrap"}]}]
+FLOWFORMS = ["iter", "list", "tuple", "gen"]
 FNS = ["inc", "neg", "mod3", "ident", "wrap", "boom"]
 ACCS = [{"k": "acc", "a": "sum"}, {"k": "acc", "a": "mean"}, {"k": "acc", "a": "store", "group": True},
         {"k": "acc", "a": "store", "group": False}, {"k": "acc", "a": "count", "name": "n"}]
@@ -1309,8 +1441,10 @@ def gen_value(rng, kind):
         return rng.choice(INTS)
     if r < 0.8:
         return {"t": [rng.choice(INTS), {"d": gen_ctx(rng)}]}
+    if r < 0.84:
+        return rng.choice(["s", "tt", ""])
     if r < 0.87:
-        return rng.choice(["s", "tt"])
+        return {"none": True}
     if r < 0.92:
         return [rng.choice(INTS)]
     if r < 0.96:
@@ -1337,10 +1471,15 @@ def bufsizes_sample(rng, n):
 
 
 def gen_inner(rng, depth):
-    """elements inside a RunIf: stateless run/call elements"""
+    """elements inside a RunIf: mostly stateless run/call elements; sometimes one that keeps state between the one-value
+    runs (Count, an accumulator) — such chains are compared between the real drivers only"""
     out = []
     for _ in range(rng.choice([0, 1, 1, 2, 3])):
         r = rng.random()
+        if rng.random() < 0.06:
+            out.append(rng.choice([{"k": "count", "name": "n"}, {"k": "acc", "a": "sum"},
+                                   {"k": "acc", "a": "store", "group": False}, {"k": "acc", "a": "count", "name": "c"}]))
+            continue
         if r < 0.4:
             out.append({"k": "call", "f": rng.choice(FNS)})
         elif r < 0.5:
@@ -1372,8 +1511,12 @@ def gen_pre_el(rng, in_scope=True):
         return {"k": "var", "name": rng.choice(["x", "y"]), "f": rng.choice(["inc", "neg", "ident", "mod3"])}
     if r < 0.60:
         return {"k": "filter", "p": rng.choice(PREDS)}
-    if r < 0.80:
+    if r < 0.76:
         return {"k": "slice", "args": rng.choice(NONNEG_SLICES)}
+    if r < 0.79:
+        return {"k": "filtert", "q": rng.choice(["odd", "data"])}
+    if r < 0.82:
+        return {"k": "const", "v": rng.choice(CONSTS)}
     if r < 0.85:
         return {"k": "dup"}
     return gen_runif(rng, in_scope)
@@ -1437,6 +1580,9 @@ def gen_chain(rng, in_scope=True, maxpre=3, maxpost=3):
     st = {"floaty": acc["a"] == "mean"}
     if rng.random() < 0.06:
         acc = {"k": "count", "name": rng.choice(COUNT_NAMES)}      # a bare Count: run and fill/compute (dual interface)
+    elif rng.random() < 0.06:
+        acc = rng.choice(ORACLE_ACCS)                               # other framework accumulators (oracle only)
+        st["floaty"] = True
     post = [gen_post_el(rng, st, in_scope) for _ in range(rng.choice([0, 0, 1, 1, 2, 3][:maxpost + 3]))]
     return pre + [acc] + post
 
@@ -1499,6 +1645,15 @@ def adapter_cases():
             for name2 in (None, "missing", "request", "compute"):
                 cases.append({"op": "adapter", "adapter": "FillCompute", "name": name, "name2": name2, "el": el})
     return cases
+
+
+def no_mutation(branches):
+    """no element of the branches changes a value in place (Variable and Count update the context dictionary)"""
+    def ok(x):
+        if x["k"] in ("var", "count") or (x["k"] == "acc" and x["a"] == "count"):
+            return False
+        return all(ok(y) for y in x.get("inner", []))
+    return all(ok(x) for b in branches for x in b)
 
 
 def gen_split_case(rng, in_scope=True):
@@ -1565,6 +1720,47 @@ def gen_cases(ctx):
     for pre in [[]] + [[a] for a in PRE_REPS]:
         for fl in (FLOW_A, FLOW_B, []):
             yield {"op": "chain", "args": pre + [{"k": "count", "name": "n"}], "flow": fl, "bufsizes": bufsizes_for(len(fl))}
+    # selectors that return non-bools, callables that return None / falsy values, None in the flow
+    flow_n = [1, {"none": True}, 0, 2, "", {"t": [3, {"d": {"a": 1}}]}, [], 4]
+    for e in ([{"k": "filtert", "q": q} for q in ("odd", "data")] + [{"k": "const", "v": c} for c in CONSTS]
+              + [{"k": "call", "f": "ident"}, {"k": "call", "f": "wrap"}, {"k": "filter", "p": "all"}]):
+        for acc in (ACCS[3], ACCS[2], ACCS[0], ACCS[4]):
+            for fl in (FLOW_A, flow_n):
+                yield {"op": "chain", "args": [e, acc], "flow": fl, "bufsizes": bufsizes_for(len(fl))}
+                yield {"op": "chain", "args": [e, {"k": "slice", "args": [1, 6, 2]}, acc, {"k": "call", "f": "wrap"}],
+                       "flow": fl, "bufsizes": [1, 3, None]}
+        for fl in (FLOW_A, flow_n):
+            yield {"op": "stage", "el": e, "flow": fl, "term": None}
+    # the flow handed over as a list / tuple / generator instead of a list iterator
+    for ff in FLOWFORMS[1:]:
+        for args in ([ACCS[0]], [{"k": "call", "f": "inc"}, ACCS[3]], [{"k": "slice", "args": [2]}, ACCS[0]],
+                     [{"k": "filter", "p": "even"}, ACCS[2], {"k": "call", "f": "wrap"}]):
+            for fl in (FLOW_A, [], [5]):
+                yield {"op": "chain", "args": args, "flow": fl, "bufsizes": bufsizes_for(len(fl)), "flowform": ff,
+                       "defaultbuf": True}
+        yield {"op": "split", "branches": [[{"k": "slice", "args": [2]}, ACCS[0]], [{"k": "call", "f": "inc"}, ACCS[0]]],
+               "bufsize": 2, "flow": FLOW_A, "flowform": ff}
+        yield {"op": "split", "branches": [[{"k": "slice", "args": [2]}, ACCS[0]], [{"k": "call", "f": "inc"}, ACCS[3]]],
+               "bufsize": 3, "flow": FLOW_A, "flowform": ff, "copy_buf": False}
+    # a RunIf whose inner sequence keeps state between its one-value runs; accumulators beyond the four modelled ones
+    # (the real drivers are compared with each other; the model is not asked)
+    for inner in ([{"k": "count", "name": "n"}], [{"k": "acc", "a": "sum"}], [{"k": "call", "f": "inc"}, {"k": "acc", "a": "store", "group": False}],
+                  [{"k": "acc", "a": "count", "name": "c"}, {"k": "call", "f": "wrap"}]):
+        for p in ("all", "even"):
+            for acc in (ACCS[3], ACCS[2]):
+                for fl in (FLOW_C, FLOW_B, [1, 2, 3]):
+                    yield {"op": "chain", "args": [{"k": "runif", "p": p, "inner": inner}, acc], "flow": fl,
+                           "bufsizes": bufsizes_for(len(fl))}
+    for acc in ORACLE_ACCS:
+        for pre in ([], [{"k": "call", "f": "inc"}], [{"k": "filter", "p": "even"}, {"k": "slice", "args": [1, 4]}]):
+            for fl in (FLOW_A, FLOW_C, []):
+                yield {"op": "chain", "args": pre + [acc], "flow": fl, "bufsizes": bufsizes_for(len(fl))}
+    # the hand-written capability tables of the model against the real objects
+    for sp in (PRE_REPS + ACCS + [{"k": "count", "name": "n"}, {"k": "reverse"}, {"k": "end"}, {"k": "junk", "v": "int"},
+                                  {"k": "setctx"}, {"k": "slice", "args": [-2]}, {"k": "filtert", "q": "odd"},
+                                  {"k": "const", "v": 0}, {"k": "var", "name": "y", "f": "inc"},
+                                  {"k": "runif", "p": "all", "inner": [{"k": "count", "name": "n"}]}]):
+        yield {"op": "caps", "spec": sp}
     # the seeded sibling pattern: a branch that stops early before an ordinary chain, every bufsize
     for sl in ([2], [0], [1, 3]):
         for chain in ([{"k": "call", "f": "inc"}, ACCS[0]], [{"k": "filter", "p": "even"}, ACCS[3]], [ACCS[4]]):
@@ -1605,7 +1801,12 @@ def gen_cases(ctx):
     for _ in range(n_rand):
         in_scope = rng.random() < 0.8
         fl = gen_flow(rng)
-        yield {"op": "chain", "args": gen_chain(rng, in_scope), "flow": fl, "bufsizes": bufsizes_sample(rng, len(fl))}
+        c = {"op": "chain", "args": gen_chain(rng, in_scope), "flow": fl, "bufsizes": bufsizes_sample(rng, len(fl))}
+        if rng.random() < 0.4:
+            c["flowform"] = rng.choice(FLOWFORMS[1:])
+        if rng.random() < 0.3:
+            c["defaultbuf"] = True
+        yield c
     n_split = 800 if not thorough else 45000
     for _ in range(n_split):
         c = gen_split_case(rng, rng.random() < 0.9)
@@ -1614,6 +1815,10 @@ def gen_cases(ctx):
             c["form"] = "prebuilt"
         elif r < 0.3:
             c["form"] = "bare"
+        if rng.random() < 0.3:
+            c["flowform"] = rng.choice(FLOWFORMS[1:])
+        if rng.random() < 0.25 and no_mutation(c["branches"]):
+            c["copy_buf"] = False      # the branches see the same objects: only for branches that do not change them
         yield c
         if rng.random() < 0.3:
             yield {"op": "splitfc", "branches": c["branches"], "flow": c["flow"]}
